@@ -8,7 +8,7 @@
 (*            permission bits m), fresh = digests of the same invocation into an empty directory (fok: it     *)
 (*            succeeded), and for the I-layer: ord = order in which that run generates, ev = audit events    *)
 (*            (chmod/open on files of the directory), lpp = a line post-processor is in force, priv = root.  *)
-(* P decides: REJECT with the first failing clause of GenHistory!FailedClauses (all of them as 4th field).   *)
+(* P decides: REJECT with the first failing clause of GenHistory!FailedClauses (4th field: how many failed).  *)
 (* The I-layer only annotates: clause names starting with "drift." (end state or event sequence differ from  *)
 (* what the implementation-shaped model predicts, or from the expected state a model behaviour carried).    *)
 EXTENDS GenHistory, IOUtils
@@ -47,7 +47,7 @@ EnvResult(r) ==
     ELSE IF r.k = "chmod" THEN (IF r.p \in DOMAIN fs THEN [fs EXCEPT ![r.p].m = r.m] ELSE fs)
     ELSE (IF r.p \in DOMAIN fs THEN Del(fs, r.p) ELSE fs)
 
-Say(id, clause, more) == PrintT(<<"REJECT", id, clause, more>>)
+Say(id, clause, more) == PrintT(<<"REJECT", id, clause, Cardinality(more)>>)   \* short: TLC wraps long lines
 
 TRun(r) ==
     LET post  == FsOf(r.post)
